@@ -16,3 +16,4 @@ open Nanite.C08
 #print axioms c08_fallback_valid
 #print axioms c08_fallback
 #print axioms c08_six_estimators
+#print axioms c08_deviation_exact_on_clean_curves
